@@ -21,6 +21,51 @@ theorem accept_better_or_equal (exp : F → F) (h0 : exp 0 = 1) (cur cand T u : 
 example : accepts (fun x : Rat => 1 + x) 3 3 (1 / 2) (9 / 10) = true :=
   accept_better_or_equal _ (by norm_num) _ _ _ _ (le_refl _) (by norm_num) (by norm_num)
 
+/-! #### Known finding: equal *infinite* objective values
+
+`accept_better_or_equal` is about finite values (an ordered field has no `∞`). On the IEEE-like
+carrier `Ext F` the same model shows what the code does for `f(cur) = f(cand) = +∞` (two infeasible
+solutions): `∞ − ∞ = NaN`, `exp(NaN) = NaN`, `u < NaN` is false — the candidate is rejected for
+every temperature and every draw although it is as good as the current solution. -/
+
+/-- The full statement on the extended carrier (does NOT hold, see `accept_equal_inf_violates`). -/
+def AcceptBetterOrEqualExt (exp : Ext F → Ext F) : Prop :=
+  ∀ cur cand T u : Ext F, (cand < cur ∨ cand = cur) → cur ≠ .nan → (.fin 0 : Ext F) < T → u < .fin 1 →
+    accepts exp cur cand T u = true
+
+/-- Counterexample (for every `exp` that propagates NaN, every temperature, every draw). -/
+theorem accept_equal_inf_violates (exp : Ext F → Ext F) (hn : exp .nan = .nan) (T u : Ext F) :
+    accepts exp .pinf .pinf T u = false := by
+  have h1 : ((.pinf : Ext F) - .pinf) = .nan := rfl
+  have h2 : ((.nan : Ext F) / T) = .nan := by cases T <;> rfl
+  have h3 : ¬ (u < (.nan : Ext F)) := by
+    show ¬ (Ext.ltb u .nan = true)
+    cases u <;> simp [Ext.ltb]
+  have h4 : ¬ ((.pinf : Ext F) < .pinf) := by
+    show ¬ (Ext.ltb .pinf .pinf = true); simp [Ext.ltb]
+  simp [accepts, prob, h1, h2, hn, h3, h4]
+
+theorem accept_better_or_equal_ext_fails (exp : Ext F → Ext F) (hn : exp .nan = .nan) :
+    ¬ AcceptBetterOrEqualExt exp := by
+  intro h
+  have := h .pinf .pinf (.fin 1) (.fin 0) (Or.inr rfl) (by simp)
+    (by show Ext.ltb _ _ = true; simp [Ext.ltb]) (by show Ext.ltb _ _ = true; simp [Ext.ltb])
+  rw [accept_equal_inf_violates exp hn] at this
+  exact Bool.noConfusion this
+
+/-- The partial form with the excluded region explicit: on the extended carrier the statement
+holds for FINITE objective values, a finite positive temperature and a finite draw below 1. -/
+theorem accept_better_or_equal_partial (exp : F → F) (h0 : exp 0 = 1) (a b : Ext F) (cur cand T u : F)
+    (hle : cand ≤ cur) (hT : 0 < T) (hu : u < 1) :
+    accepts (Ext.lift exp a b) (.fin cur) (.fin cand) (.fin T) (.fin u) = true := by
+  have hT0 : T ≠ 0 := ne_of_gt hT
+  have := accept_better_or_equal exp h0 cur cand T u hle hT hu
+  simp only [accepts, prob, Ext.fin_sub_div _ _ _ hT0, Ext.lift, Ext.fin_lt_fin] at this ⊢
+  exact this
+
+example : accepts (Ext.lift (fun x : Rat => 1 + x) .pinf (.fin 0)) (.fin 3) (.fin 3) (.fin (1 / 2)) (.fin (9 / 10)) = true :=
+  accept_better_or_equal_partial _ (by norm_num) _ _ _ _ _ _ (le_refl _) (by norm_num) (by norm_num)
+
 /-- A worse candidate is accepted exactly when the draw falls below `exp(−(f(cand) − f(cur)) / T)`. -/
 theorem accept_worse_iff (exp : F → F) (cur cand T u : F) (h : cur < cand) :
     accepts exp cur cand T u = true ↔ u < exp (-(cand - cur) / T) := by
